@@ -31,7 +31,31 @@ NEEDS = {
     "C17": "a merge step whose right-hand side has more top-level keys than everything merged so far, and a rule iterating the merged root (`this.*` / keys)",
     "C18": "join() over a collection whose first element(s) are the empty string: the delimiter after them is dropped",
     "C19": "a string property containing a backslash, tab or control character: rendered with JSON escaping, the generated clause no longer matches",
+    "C01-2": "same change as C15 (three independent agents converged on it): memo of a file-level `let v = some <query>` stores the unfiltered result; needs >= 2 references",
+    "C02-2": "a parameterised rule called with a custom message (`p(args) <<m>>`) whose outcome is not PASS: its RuleCheck record is rebuilt with NamedStatus::default() (status PASS)",
+    "C03-2": "prefix not/! on `empty` applied to a bare variable or a filter-ending query whose selection contains an unresolved entry",
+    "C04-2": "same change as C15 / C01-2 (file-level `some` memo): verdict depends on which clause or rule touches the variable first",
+    "C05-2": "parse_epoch() on a timestamp without zone designator (accepted by the patch and anchored in the local zone) and two runs whose TZ differs",
+    "C06-2": "`test --dir -o json|yaml|junit` on a directory with >= 2 rules files where a file with a mismatching expectation is followed by one whose expectations all match (exit code reset to 0)",
+    "C07-2": "`validate --payload` in non-structured mode with >= 2 rules entries where a failing entry is followed by a passing one (exit code overwritten)",
+    "C08-2": "a rule name defined more than once whose first definition SKIPs and whose later definition closes a reference cycle (in-progress guard popped once per definition): stack overflow",
+    "C09-2": "a parameterised rule called with a custom message whose body calls another parameterised rule without message: the inner record/report entry gets the outer message",
+    "C10-2": "a data file (or stdin) that begins with blank lines / leading whitespace: every reported line/column is relative to the trimmed text; or a document ending in a literal block scalar",
+    "C11-2": "a YAML document using the `!Condition x` short form: loaded as {Fn::Condition: x} instead of {Condition: x} by every loader",
+    "C12-2": "`validate --structured -o junit` with >= 2 data files and a failing file that is not the last: later <testsuite> headers carry the failures of earlier files",
+    "C13-2": "`X in r(a,b]` with X exactly equal to b (upper-inclusive-only range evaluated as the open range)",
+    "C14-2": "the `|OR|` spelling on the same line directly after a bare rule reference without custom message: parse error",
+    "C15-2": "a literal bound by `let` at rule/when/block level (not file level) used where literal-vs-query matters: `some q == %v`, list-valued LHS vs scalar, scalar vs one-element list literal",
+    "C16-2": "`test --dir -o json|yaml|junit` on a rules file with file-level clauses (default rule): the rule is named `<path>/default` instead of `<stem>/default`, expectations land under skipped",
+    "C17-2": "two parameter files with the same base name in different directories (`-i envA/params.json -i envB/params.json`): the second is silently dropped",
+    "C18-2": "parse_int() on a string that is no i64 but parses as a float (\"3.7\", \"nan\", \"1e400\", \"9223372036854775808\"): a value instead of an error",
+    "C19-2": "a top-level float property with zero fraction (75.0, 1.0E+2): emitted as the integer literal 75, which is not comparable with the template's float",
 }
+
+
+def seed_names():
+    import re
+    return sorted(d for d in os.listdir(os.path.join(V, "seeded")) if re.match(r"^C\d\d(-\d+)?$", d) and os.path.exists(os.path.join(V, "seeded", d, "patch.diff")))
 
 
 def sh(cmd, **kw):
@@ -49,12 +73,14 @@ def run_check(prop, env=None):
 def own():
     assert sh("git -C /repo diff --quiet").returncode == 0, "/repo has uncommitted changes"
     head = sh("git -C /repo log --format=%h -n1").stdout.strip()
-    for prop in PROPS:
-        d = os.path.join(V, "seeded", prop)
-        patch = os.path.join(d, "patch.diff")
-        if not os.path.exists(patch):
+    only = sys.argv[2:]
+    for seed in seed_names():
+        if only and seed not in only:
             continue
-        assert sh("git -C /repo apply %s" % patch).returncode == 0, prop
+        prop = seed[:3]
+        d = os.path.join(V, "seeded", seed)
+        patch = os.path.join(d, "patch.diff")
+        assert sh("git -C /repo apply %s" % patch).returncode == 0, seed
         try:
             rc, sigs = run_check(prop)
         finally:
@@ -63,7 +89,7 @@ def own():
         conf = json.load(open(os.path.join(d, "confirm.json"))) if os.path.exists(os.path.join(d, "confirm.json")) else {}
         meta = {
             "breaks_property": prop,
-            "needs_to_manifest": NEEDS[prop],
+            "needs_to_manifest": NEEDS[seed],
             "origin": "independent sub-agent given only the property text and a scratch worktree of /repo (no access to /verif)",
             "confirmed_in_scratch_worktree": conf,
             "what_was_run": ["git -C <worktree> apply patch.diff; cargo build --offline; cargo nextest run --workspace --no-fail-fast --offline (only the 15 baseline validate_tests failures); "
@@ -75,16 +101,17 @@ def own():
             "violation_signatures": sigs[:8],
         }
         json.dump(meta, open(os.path.join(d, "meta.json"), "w"), indent=1)
-        print(prop, "detected" if rc == 1 else "MISSED rc=%d" % rc, sigs[:2], flush=True)
+        print(seed, "detected" if rc == 1 else "MISSED rc=%d" % rc, sigs[:2], flush=True)
 
 
 def matrix(clone):
     env = {"GV_REPO": clone}
     out = {}
-    for seed in PROPS:
-        patch = os.path.join(V, "seeded", seed, "patch.diff")
-        if not os.path.exists(patch):
+    only = sys.argv[3:]
+    for seed in seed_names():
+        if only and seed not in only:
             continue
+        patch = os.path.join(V, "seeded", seed, "patch.diff")
         assert sh("git -C %s apply %s" % (clone, patch)).returncode == 0, seed
         row = {}
         try:
